@@ -9,6 +9,7 @@ import (
 	"fmt"
 	"go/ast"
 	"go/parser"
+	"go/printer"
 	"go/token"
 	"os"
 	"path/filepath"
@@ -126,4 +127,61 @@ func main() {
 	repo, outDir = os.Args[1], os.Args[2]
 	must(os.MkdirAll(outDir, 0o755))
 	genProcessEnv()
+	genUtilFormat()
+}
+
+// exprString / stmtsString: canonical whitespace-free rendering of AST fragments used for shape matching.
+func exprString(e ast.Expr) string {
+	var b bytes.Buffer
+	printer.Fprint(&b, token.NewFileSet(), e)
+	return squeeze(b.String())
+}
+
+func stmtsString(ss []ast.Stmt) string {
+	var parts []string
+	for _, s := range ss {
+		var b bytes.Buffer
+		printer.Fprint(&b, token.NewFileSet(), s)
+		parts = append(parts, squeeze(b.String()))
+	}
+	return strings.Join(parts, ";")
+}
+
+func squeeze(s string) string {
+	var sb strings.Builder
+	inStr := byte(0)
+	for i := 0; i < len(s); i++ {
+		c := s[i]
+		if inStr != 0 {
+			sb.WriteByte(c)
+			if c == '\\' && i+1 < len(s) {
+				i++
+				sb.WriteByte(s[i])
+			} else if c == inStr {
+				inStr = 0
+			}
+			continue
+		}
+		if c == '"' || c == '\'' || c == '`' {
+			inStr = c
+			sb.WriteByte(c)
+			continue
+		}
+		if c == ' ' || c == '\t' || c == '\n' || c == '\r' {
+			// keep a single space between identifier characters
+			if sb.Len() > 0 && i+1 < len(s) && isIdent(s[i+1]) {
+				last := sb.String()[sb.Len()-1]
+				if isIdent(last) {
+					sb.WriteByte(' ')
+				}
+			}
+			continue
+		}
+		sb.WriteByte(c)
+	}
+	return sb.String()
+}
+
+func isIdent(c byte) bool {
+	return c == '_' || (c >= 'a' && c <= 'z') || (c >= 'A' && c <= 'Z') || (c >= '0' && c <= '9')
 }
